@@ -370,22 +370,23 @@ def unit_mode(repo, seed, outfile, spec, case):
     def snaps(X):
         out = []
         for t in range(X["pos"].shape[0]):
-            L = np.diag(X["H"]).copy()
+            L = np.diag(X["H"][t]).copy()
             bb = np.column_stack([X["lo"], X["lo"] + L])
             out.append(SingleSnapshot(timestep=t * 10, nparticle=X["pos"].shape[1], particle_type=X["types"].copy(), positions=X["pos"][t].copy(),
-                                      boxlength=L, boxbounds=bb, realbounds=bb.copy(), hmatrix=X["H"].copy()))
+                                      boxlength=L, boxbounds=bb, realbounds=bb.copy(), hmatrix=X["H"][t].copy()))
         return Snapshots(nsnapshots=len(out), snapshots=out)
 
     def make(d, N, T, tilt=True, ntypes=2, periodic=None, spread=0.15):
         L = rng.uniform(5.0, 7.0, size=d)
-        H = np.diag(L)
+        H = np.stack([np.diag(L) for _ in range(T)])          # the same edge lengths in every frame (the classes assert it), a tilt per frame
         if tilt:
-            for a in range(d):
-                for b in range(a):
-                    H[a, b] = rng.uniform(-0.3, 0.3) * L[b]
+            for t in range(T):
+                for a in range(d):
+                    for b in range(a):
+                        H[t, a, b] = rng.uniform(-0.3, 0.3) * L[b]
         lo = rng.uniform(-3.0, 3.0, size=d)
         frac = rng.uniform(0.0, 1.0, size=(N, d))
-        base = lo + frac @ H
+        base = lo + frac @ H[0]
         pos = np.stack([base + spread * t * rng.normal(size=(N, d)) for t in range(T)])
         types = (np.arange(N) % ntypes + 1).astype(np.int32)
         rng.shuffle(types)
@@ -397,8 +398,8 @@ def unit_mode(repo, seed, outfile, spec, case):
 
     def minimg(X, t):
         r = X["pos"][t][None, :, :] - X["pos"][t][:, None, :]
-        m = r @ np.linalg.inv(X["H"])
-        r = r - (np.rint(m) * X["ppp"]) @ X["H"]
+        m = r @ np.linalg.inv(X["H"][t])
+        r = r - (np.rint(m) * X["ppp"]) @ X["H"][t]
         return np.sqrt((r ** 2).sum(-1)), m
 
     def no_ties(X, pairs=None):
@@ -419,12 +420,14 @@ def unit_mode(repo, seed, outfile, spec, case):
     def g_lattice(X, per_frame):
         T, N, d = X["pos"].shape
         n = rng.integers(-2, 3, size=(T if per_frame else 1, N, d)) * X["ppp"]
-        return dict(X, pos=X["pos"] + n @ X["H"]), None
+        if per_frame:
+            return dict(X, pos=X["pos"] + np.stack([n[t] @ X["H"][t] for t in range(T)])), None
+        return dict(X, pos=X["pos"] + (n[0] @ X["H"][0])[None, :, :]), None
 
     def g_axes(X, per_frame):
         d = X["pos"].shape[2]
         ax = np.roll(np.arange(d), 1) if d == 3 else np.array([1, 0])
-        H = X["H"][np.ix_(ax, ax)]
+        H = X["H"][:, ax][:, :, ax]
         return dict(X, pos=X["pos"][:, :, ax], H=H, lo=X["lo"][ax], ppp=X["ppp"][ax], field=X["field"][:, ax],
                     tfield=X["tfield"][:, ax][:, :, ax]), ("axes", ax)
 
@@ -549,7 +552,35 @@ def unit_mode(repo, seed, outfile, spec, case):
         om = pd.read_csv(pref + ".omega_PR.csv")["omega"].values
         return {"matrix-handed-to-eigh": ("hessian", M), "spectrum": ("spectrum", np.sort(np.where(om > 0, om ** 2, om)))}
 
-    FUNCS = {"boo_2d.lthorder": (f_boo2d, 2, True), "boo_3d.qlm_Qlm": (f_boo3d, 3, True), "q8_tetrahedral": (f_tetra, 3, True),
+    RCUT, NNEAR = 1.9, 4
+
+    def read_rows(fn, T, N):
+        with open(fn) as f:
+            lines = f.read().split("\n")
+        k, out = 0, []
+        for t in range(T):
+            k += 1
+            rows = {}
+            for _ in range(N):
+                w = lines[k].split()
+                k += 1
+                rows[int(w[0]) - 1] = sorted(int(x) - 1 for x in w[2:2 + int(w[1])])
+            out.append([rows[i] for i in range(N)])
+        return out
+
+    def f_writer(X, which):
+        from PyMatterSim.neighbors.calculate_neighbors import Nnearests, cutoffneighbors
+        fn = os.path.join(tmp, f"wr{counter[0]}.dat")
+        counter[0] += 1
+        if which == "Nnearests":
+            Nnearests(snaps(X), N=NNEAR, ppp=X["ppp"], fnfile=fn)
+        else:
+            cutoffneighbors(snaps(X), r_cut=RCUT, ppp=X["ppp"], fnfile=fn)
+        T, N, _ = X["pos"].shape
+        return {"neighbour-sets": ("sets", read_rows(fn, T, N))}
+
+    FUNCS = {"cutoffneighbors": (lambda X: f_writer(X, "cutoffneighbors"), None, True), "Nnearests": (lambda X: f_writer(X, "Nnearests"), None, True),
+             "boo_2d.lthorder": (f_boo2d, 2, True), "boo_3d.qlm_Qlm": (f_boo3d, 3, True), "q8_tetrahedral": (f_tetra, 3, True),
              "S2.particle_s2": (f_s2, None, True), "gyration_tensor": (f_gyration, None, False), "divergence_curl": (f_divcurl, None, False),
              "conditional_gr": (f_condgr, None, False), "Dynamics.relaxation": (f_relax, None, False),
              "HessianMatrix.diagonalize_hessian": (f_hessian, None, False)}
@@ -562,8 +593,17 @@ def unit_mode(repo, seed, outfile, spec, case):
                 dm = np.sort(minimg(X, t)[0], axis=1)
                 if (dm[:, 5] - dm[:, 4]).min() < 1e-6:
                     return False
+        if fname == "cutoffneighbors":
+            for t in range(T):
+                if np.abs(minimg(X, t)[0] - RCUT).min() < 1e-6:
+                    return False
+        if fname == "Nnearests":
+            for t in range(T):
+                dm = np.sort(minimg(X, t)[0], axis=1)
+                if (dm[:, NNEAR + 1] - dm[:, NNEAR]).min() < 1e-6:
+                    return False
         if fname == "conditional_gr":
-            edges = np.arange(0, int(np.diag(X["H"]).min() / 2 / 0.25) + 1) * 0.25
+            edges = np.arange(0, int(np.diag(X["H"][0]).min() / 2 / 0.25) + 1) * 0.25
             dm = minimg(X, 0)[0][np.triu_indices(N, 1)]
             if np.abs(dm[:, None] - edges[None, :]).min() < 1e-7:
                 return False
@@ -590,6 +630,16 @@ def unit_mode(repo, seed, outfile, spec, case):
         for name in o1:
             kind, a = o1[name]
             b = o2[name][1]
+            if kind == "sets":
+                for t in range(len(a)):
+                    for q in range(len(a[t])):
+                        want = a[t][q]
+                        if how is not None and how[0] == "perm":
+                            inv = np.argsort(how[1])
+                            want = sorted(int(inv[j]) for j in a[t][int(how[1][q])])
+                        if b[t][q] != want:
+                            return f"{name}: frame {t}, particle {q}: {b[t][q]} after the transformation, expected {want}"
+                continue
             a, b = np.asarray(a), np.asarray(b)
             if how is not None and how[0] == "perm" and kind.startswith(("particle", "pvector")):
                 a = np.take(a, how[1], axis=int(kind.split(":")[1]))
@@ -640,7 +690,7 @@ def unit_mode(repo, seed, outfile, spec, case):
                 except Exception as e:
                     bad = f"raises {type(e).__name__}: {e}"
                 results.append({"observable": fname, "group": group, "failed": bad is not None, "detail": bad,
-                                "inputs": None if bad is None else {"case": case, "d": d, "N": N, "T": T, "hmatrix": X["H"].tolist(), "ppp": X["ppp"].tolist(),
+                                "inputs": None if bad is None else {"case": case, "d": d, "N": N, "T": T, "hmatrix": X["H"][0].tolist(), "ppp": X["ppp"].tolist(),
                                                                    "positions[0][:4]": X["pos"][0][:4].tolist(), "neighbours[0][:3]": X["nbs"][0][:3]}})
     except Exception:
         results.append({"observable": fname, "group": group, "failed": False, "error": traceback.format_exc()[-1500:]})
